@@ -355,15 +355,37 @@ def c08_r6(ctx):
     ctx.saw(f)
     fa = guards.Facts(f)
     # the lists handed to MultiColumnReader(readers, offsets)
-    mlists = [norm.canon(a) for c in norm.calls_in(f.node) if norm.call_name(c) == "MultiColumnReader" for a in c.args if isinstance(a, ast.Name)]
-    if len(mlists) != 2:
+    mcalls = [c for c in norm.calls_in(f.node) if norm.call_name(c) == "MultiColumnReader"]
+    if len(mcalls) != 1 or len(mcalls[0].args) != 2:
         raise AnalysisError("MultiReader.column_reader no longer builds MultiColumnReader(<list>, <list>)")
+    mlists = []
+    whole = 0
+    for i_, a in enumerate(mcalls[0].args):
+        an_ = norm.assigned_names(f.node).get(a.id) if isinstance(a, ast.Name) else None
+        v = an_[0] if an_ and len(an_) == 1 and an_[0] is not None and not (isinstance(an_[0], ast.List) and not an_[0].elts) else a
+        if isinstance(v, (ast.ListComp, ast.GeneratorExp)) or (isinstance(v, ast.Call) and norm.call_name(v) in ("list", "tuple")
+                                                              and v.args and isinstance(v.args[0], (ast.ListComp, ast.GeneratorExp))):
+            comp = v if isinstance(v, (ast.ListComp, ast.GeneratorExp)) else v.args[0]
+            conds = [norm.canon(t) for g_ in comp.generators for t in g_.ifs]
+            over = norm.canon(comp.generators[0].iter)
+            ok_ = not conds and "self.readers" in over
+            ctx.ob(f, ok_, "%s are built for every sub-reader" % ("the column readers" if i_ == 0 else "the offsets"),
+                   detail="" if ok_ else "built by a comprehension over %s with conditions %s: segments lacking the column are skipped, so "
+                                        "later segments' documents read other documents' values" % (over, conds), loc=ctx.nodeloc(f, v))
+            whole += 1
+        elif norm.canon(v) in ("self.doc_offsets", "list(self.doc_offsets)", "self.doc_offsets[:]", "tuple(self.doc_offsets)"):
+            ctx.ob(f, True, "the offsets are the reader's own offset table (one per sub-reader)", loc=ctx.nodeloc(f, v))
+            whole += 1
+        elif isinstance(a, ast.Name):
+            mlists.append(a.id)
+    if len(mlists) + whole != 2:
+        raise AnalysisError("MultiReader.column_reader: cannot read how the two lists of MultiColumnReader are built")
     for n_ in fa.g.nodes:
         for frag in cfgmod.node_exprs(n_):
             for c in norm.calls_in(frag):
                 if norm.call_name(c) == "append" and norm.canon(norm.receiver(c)) in mlists:
                     facts = [t for (p, t) in (fa.at(n_) or []) if "has_column" in t]
-                    ctx.ob(f, not facts, "%s happens for every sub-reader" % ("readers.append(...)" if norm.canon(norm.receiver(c)) == mlists[0] else "offsets.append(...)"),
+                    ctx.ob(f, not facts, "%s happens for every sub-reader" % ("readers.append(...)" if norm.canon(norm.receiver(c)) == norm.canon(mcalls[0].args[0]) else "offsets.append(...)"),
                            detail="only under %s: segments lacking the column file are skipped, so later segments' "
                                   "documents read other documents' values" % facts if facts else "", loc=ctx.nodeloc(f, c))
     sr = prog.method("reading.SegmentReader", "column_reader", inherited=False)
